@@ -16,7 +16,7 @@ stored = "/verif/seeded/%s-%s" % (pid, k)
 if os.path.exists(os.path.join(stored, "patch.diff")):  # a stored seed is re-checked from its stored files, whatever lies in /tmp
     patch = os.path.join(stored, "patch.diff"); demo = os.path.join(stored, "demo_test.go.txt"); note = os.path.join(stored, "NOTE.md")
 RACE = "-race " if pid == "C15" else ""
-env = dict(os.environ, GOFLAGS="-mod=mod", GOPROXY="off", GOSUMDB="off", GOTOOLCHAIN="local")
+env = dict(os.environ, GOFLAGS="-mod=mod -trimpath", GOPROXY="off", GOSUMDB="off", GOTOOLCHAIN="local")
 env.pop("GOWORK", None)
 def run(cmd, cwd, timeout=600):
     try:
